@@ -217,6 +217,10 @@ def build(model, N, rng):
     if model == 'DK':
         sigma = float(rng.choice([1.0, 1.0, 0.8, 1.3]))
         l = float(sigma * rng.choice([1.0, 1.0, 0.8, 1.5, 0.6]))
+        if rng.random() < 0.4:
+            # any bond length above sigma/2 and any diameter are valid (two-decimal values, as a user types them)
+            sigma = float(round(rng.uniform(0.5, 2.0), 2))
+            l = float(round(sigma * rng.uniform(0.55, 2.2), 2))
         lp_min = 4.0 * l ** 3 / (4.0 * l ** 2 - sigma ** 2)
         mode = str(rng.choice(['near', 'at', 'mid', 'mid', 'stiff', 'doc', 'rod', 'rod']))
         if mode == 'near':
@@ -333,6 +337,17 @@ def run_case(ctx, case):
         o = np.array(obj.calculate(np.array(k)), dtype=float)
         if not np.array_equal(o, out, equal_nan=True):
             ctx.violation('omega:%s-not-repeatable' % kind, '%s: second identical call differs' % desc)
+        # a single wavenumber given as a plain number / 0-d array (the chain models have a branch for it): judged only when a value comes back
+        i = int(rng.integers(0, len(k)))
+        for form, arg in (('float', float(k[i])), ('0-d array', np.array(float(k[i])))):
+            try:
+                o = np.asarray(obj.calculate(arg), dtype=float)
+            except Exception:   # noqa - scalar wavenumbers are not documented input
+                ctx.count('scalar_k', '%s: %s refused' % (kind, form))
+                continue
+            ctx.hook('scalar_k_probe')
+            if o.size != 1 or not np.allclose(o.ravel()[0], out[i], rtol=0, atol=tol, equal_nan=True):
+                ctx.violation('omega:%s-depends-on-other-k:scalar' % kind, '%s: evaluation at the plain number k=%r (%s) gives %r, array evaluation %r' % (desc, float(k[i]), form, o.tolist(), float(out[i])))
     # ---- FP-trap replica: finite everywhere means no invalid / divide / overflow on the way
     if kind in ('G', 'FJC', 'RING', 'DK'):
         ctx.hook('fp_trap_replica')
